@@ -418,6 +418,7 @@ func catalogue(s *servers, keyStore string, now time.Time) []*mechSpec {
 			Overrides: []override{
 				{Name: "scopes", Cfg: M{"scopes": L{"s3"}}, Equiv: true},
 				{Name: "ttl", Cfg: M{"cache_ttl": "3s"}, Equiv: true},
+				{Name: "ttl0", Cfg: M{"cache_ttl": "0s"}, Equiv: true}, // the documented way to switch caching off for one rule
 				{Name: "header", Cfg: M{"header": M{"name": "X-Other-Auth", "scheme": "Other"}}, Equiv: true},
 				{Name: "all", Cfg: M{"scopes": L{"s4", "s5"}, "cache_ttl": "1s", "header": M{"name": "X-All-Auth", "scheme": "All"}}, Equiv: true},
 				{Name: "empty", Cfg: M{}, Equiv: true, Inert: true},
@@ -432,6 +433,7 @@ func catalogue(s *servers, keyStore string, now time.Time) []*mechSpec {
 				{Name: "scopes-no-lifetime", Cfg: M{"scopes": L{"s3"}}, Equiv: true},
 				{Name: "scopes-long-lived", Cfg: M{"scopes": L{"s3", fmt.Sprintf("life=%d", lifeLong)}}, Equiv: true},
 				{Name: "ttl", Cfg: M{"cache_ttl": "3s"}, Equiv: true},
+				{Name: "ttl0", Cfg: M{"cache_ttl": "0s"}, Equiv: true}, // the documented way to switch caching off for one rule
 				{Name: "ttl-longer", Cfg: M{"cache_ttl": "3h", "scopes": L{fmt.Sprintf("life=%d", lifeLong)}}, Equiv: true},
 				{Name: "header", Cfg: M{"header": M{"name": "X-Other-Auth", "scheme": "Other"}}, Equiv: true},
 				{Name: "empty", Cfg: M{}, Equiv: true, Inert: true},
